@@ -8,7 +8,7 @@ PROPS = {
     "C01": {
         "level": "exploration",
         "steps": [("hv", "C01", {}), ("py", "lsx", "run_c01"), ("hv", "wasmapi", {"_scale": 0.3}), ("hv", "cli", {"_scale": 0.3}), ("py", "san", "cachegrind", "thorough_only"), ("py", "san", "asan", "thorough_only")],
-        "rule": "documents from G-corpus prefix closure, clauses, hostile Unicode, mutations, fixtures, long/nesting families, every White_Space character as separator / text end (family Q) and "
+        "rule": "documents from G-corpus prefix closure, clauses, hostile Unicode, mutations, fixtures, long/nesting families, every White_Space character as separator / text end (family Q), comment groups of directive-looking lines and prose lines in every comment language with every prefix of the two-directive groups (family R) and "
                 "grammar-generated files, through all 29 front-ends (x wrappers, x rule configurations x dialects), each run under a "
                 "crash monitor (catch_unwind + process-death observation), a CPU-time hang monitor and (thorough) instruction-count "
                 "scaling; hostile documents in every language id are also sent to real harper-ls sessions, which must answer each one (no answer / death / > 60 s CPU decided on the server's CPU time); non-trivial = document that yields >= 1 token; distinct = hash(front-end, token-kind sequence)",
@@ -49,7 +49,7 @@ PROPS = {
         "level": "exploration",
         "steps": [("hv", "C05", {"_scale": 4.0}), ("hv", "C05", {"mode": "threads", "_jobs": 2, "_tag": "C05threads", "_hang_cpu": 240}), ("py", "c05proc", "run"), ("py", "lsx", "run_c05"), ("py", "san", "tsan", "thorough_only")],
         "rule": "histories of (set/unset rule | lint(doc, plain|markdown)) on one long-lived LintGroup or harper_wasm::Linter, documents assembled from a small clause pool so "
-                "that the chunk cache and the word cache are hit constantly (hook counters prove it), each step compared with a freshly built linter of the same configuration; the "
+                "that the chunk cache and the word cache are hit constantly (hook counters prove it), each step compared with a freshly built linter of the same configuration (every other step on a newly spawned thread with a document of its own, so that per-thread and per-buffer state cannot cancel out); steps that replace one word of the previous text by a same-length counterpart; the "
                 "same documents on 16 threads in different orders and one linter moved across threads vs a single-thread run; two processes byte-for-byte; harper-ls: didChange histories on one long-lived document (texts from a small clause pool, fixed dialect and rule switches), every publish "
                 "compared with the library's lints for that text; thorough adds an "
                 "eviction run (12 000 distinct chunks) and the TSan build; non-trivial = history with >= 1 chunk-cache hit; distinct = history seed",
@@ -119,7 +119,7 @@ PROPS = {
         "level": "exploration",
         "steps": [("hv", "C12", {}), ("py", "lsx", "run_c12")],
         "rule": "pairs (P, D): P = rule sentence / generated clause / hostile Unicode without double quotes, closed by a terminator and a blank line, "
-                "D = arbitrary further text; compare lints(P++D) with lints(P) + shift(lints(D), |P|) as multisets, all rules on, fresh linter per call; "
+                "D = arbitrary further text (also: the same compound split at another place, P with one blank moved); compare lints(P++D) with lints(P) + shift(lints(D), |P|) as multisets, all rules on, fresh linter per call; "
                 "the same relation at the language server: P++D, P and D opened as plain-text documents, diagnostics of the whole = those of P + those of D moved down by P's lines (P with astral / combining characters; two pairs whose whole has 650-900 diagnostics); "
                 "non-trivial = P has >= 1 lint and D is non-empty; distinct = hash(P, D)",
         "assumptions": ["multiset comparison: the statement fixes no order across rules", "cache effects are excluded here (fresh linter per call); they belong to C05"],
@@ -130,7 +130,7 @@ PROPS = {
         "rule": "across processes: one process lints 2000 texts, ignores every lint of every second one and exports the list; a fresh process imports it and lints the same texts (every ignored lint hidden); "
                 "documents built from a pool of flagged clauses with twins (same flagged word, different neighbours), plain and Markdown; random subsets ignored through IgnoredLints; "
                 "checks: ignored lint gone, every lint observably different from all ignored ones survives, export/import equivalence, and edits >= 8 characters away (prepend / append "
-                "paragraph, quoted paragraph, inserted words) keep it ignored; harper-ls histories: a diagnostic is ignored through the HarperIgnoreLint command the server itself offers "
+                "paragraph, quoted paragraph, inserted words; the flagged word again, capitalised, in a paragraph far above, checked by a linter that has seen nothing yet) keep it ignored - a lint at the same place whose only difference is its suggestions counts as the ignored lint; harper-ls histories: a diagnostic is ignored through the HarperIgnoreLint command the server itself offers "
                 "(gone, every diagnostic with another message or flagged text still published, nothing new), then clean paragraphs (or, in source files, code with a new identifier) are appended / prepended; harper_wasm::Linter::ignore_lint with imported user words next to the flagged text, "
                 "and export -> import into a second linter; non-trivial = document with >= 2 lints; distinct = hash(document, chosen subset)",
         "assumptions": ["identity of a lint = kind, message, suggestions, flagged text, tokens within two characters before/after (from the statement)"],
@@ -151,7 +151,7 @@ PROPS = {
         "steps": [("hv", "C16", {"_scale": 6.0})],
         "rule": "call histories on harper_wasm::Linter (30 calls each): lint (plain / Markdown, 4 dialects, rule sentences, clauses, hostile Unicode) with per-result invariants "
                 "(inside text, pairwise disjoint, problem text == characters at span, JSON round trips of Lint/Span/Suggestion), apply_suggestion vs reference splice, ignore_lint "
-                "(gone, nothing distinguishable removed, nothing added) + export/clear/import, import_words/export_words, set_lint_config_from_json; "
+                "(gone, nothing added, and nothing removed with it unless message, flagged text and the neighbouring tokens LintContext looks at all agree; texts with the same slip twice behind different words) + export/clear/import, import_words/export_words, set_lint_config_from_json; "
                 "non-trivial = lint call returning >= 1 lint; distinct = hash(text, #lints)",
         "assumptions": ["JsValue-returning methods cannot be called natively and are out of reach"],
     },
